@@ -331,3 +331,13 @@ def posonly_star(a, b=2, /, *rest, **more):
 
 async def agen_func(n):
     yield n
+
+
+# ---- C10 additions: names that used to be functions and are now callable objects that are not functions
+class CallableThing:
+    def __call__(self, a):
+        return a
+
+
+CALLABLE_OBJ = CallableThing()
+PARTIAL = functools.partial(mod_func, 1)
